@@ -15,6 +15,17 @@ pub fn gen_traj(t: &mut Tape) -> TrajCase {
     if t.chance(0.15) {
         badly_scale(t, &mut ps, 2.0);
     }
+    if t.chance(0.06) {
+        // a "big-M" bound below the infinity threshold: huge but finite data must not push the
+        // starting point onto the cone boundary
+        let off = cone_offsets(&ps.cones);
+        for (ci, c) in ps.cones.iter().enumerate() {
+            if matches!(c, ConeSpec::Nonneg(_)) && off[ci + 1] > off[ci] {
+                ps.b[off[ci]] = t.choose(&[1e17, 1e18, 3e16, -1e17]);
+                break;
+            }
+        }
+    }
     let mut st = gen_settings(t);
     st.presolve_enable = false; // internal coordinates then have the user's dimensions
     st.max_step_fraction = t.choose(&[0.99, 0.5, 0.9, 0.999]);
@@ -52,6 +63,12 @@ pub fn check_traj(c: &TrajCase, ctx: &mut Ctx) -> CheckResult {
         } else {
             saw_pd = true;
         }
+        if r.mu.abs() < 1e-250 {
+            // a run that never converges (e.g. big-M data) can drive the complementarity measure through the
+            // subnormal range, where products of positive numbers become exact zeros: not judged
+            ctx.label("underflow-regime");
+            break;
+        }
         ensure!(r.tau > 0.0 && r.kappa > 0.0, "iteration {}: tau = {:e}, kappa = {:e} not positive", r.iter, r.tau, r.kappa);
         if !(r.x.iter().chain(&r.s).chain(&r.z).all(|v| v.is_finite())) {
             // numerical breakdown is reported through the status; interiority is not judged on NaNs
@@ -66,6 +83,12 @@ pub fn check_traj(c: &TrajCase, ctx: &mut Ctx) -> CheckResult {
             let (sv, zv) = (&r.s[rng.clone()], &r.z[rng.clone()]);
             if matches!(k, ConeSpec::Zero(_)) {
                 ensure!(sv.iter().all(|v| *v == 0.0), "iteration {}: zero-cone slack not exactly zero: {:?}", r.iter, sv);
+                continue;
+            }
+            if matches!(k, ConeSpec::Nonneg(_)) {
+                // products of scalar cones: strict positivity is exact
+                ensure!(sv.iter().all(|v| *v > 0.0), "iteration {}: slack block #{ci} of a nonnegative cone has a non-positive entry: {:?}", r.iter, sv);
+                ensure!(zv.iter().all(|v| *v > 0.0), "iteration {}: dual block #{ci} of a nonnegative cone has a non-positive entry: {:?}", r.iter, zv);
                 continue;
             }
             let (ms, ss) = primal_margin(k, sv);
@@ -107,6 +130,41 @@ pub fn check_traj(c: &TrajCase, ctx: &mut Ctx) -> CheckResult {
         ctx.label("both-scaling-strategies-seen");
     } else if saw_dual {
         ctx.label("dual-scaling-only");
+    }
+    // Oracle B': the same holds when ONE solver object is re-used with a growing budget (state left by an
+    // earlier solve must not leak into the next one)
+    {
+        let kk = full.iterations.min(3);
+        let res = catch(|| {
+            let mut st0 = c.st.clone();
+            st0.max_iter = 0;
+            let mut solver = build_solver(ps, &st0);
+            let mut outs = vec![];
+            for k in 0..=kk {
+                solver.settings.max_iter = k;
+                solver.solve();
+                outs.push(collect(&solver, vec![]));
+            }
+            let mut fresh = vec![];
+            for k in 0..=kk {
+                let mut stk = c.st.clone();
+                stk.max_iter = k;
+                let mut s2 = build_solver(ps, &stk);
+                s2.solve();
+                fresh.push(collect(&s2, vec![]));
+            }
+            (outs, fresh)
+        })
+        .map_err(|p| format!("panic while re-using a solver object: {p}"))?;
+        for (k, (a, b)) in res.0.iter().zip(&res.1).enumerate() {
+            ctx.sub_evals += 2;
+            ensure!(
+                a.status == b.status && a.iterations == b.iterations && bits(&a.x, &b.x) && bits(&a.s, &b.s) && bits(&a.z, &b.z),
+                "re-using one solver object with max_iter = {k} (after solves with smaller budgets) gives a different result than a fresh solver: {:?}/{} vs {:?}/{}",
+                a.status, a.iterations, b.status, b.iterations
+            );
+        }
+        ctx.label("solver-object-reused-across-budgets");
     }
     // Oracle B: a run limited to max_iter = k stops exactly at the k-th iterate of the long run
     let kmax = full.iterations.min(10);
